@@ -488,6 +488,9 @@ func (handler *Handler) ProxyClientConnection(ctx context.Context, errCh chan<- 
 			handler.setQueryHandler(handler.ResetStatementResponseHandler)
 		default:
 			clientLog.Debugf("Command %d not supported now", cmd)
+			// its response is relayed as is; a handler left over from a previous command (for example the one
+			// waiting for the result set of a prepared statement that was not executed yet) must not parse it
+			handler.resetQueryHandler()
 		}
 		if _, err := handler.dbConnection.Write(packet.Dump()); err != nil {
 			clientLog.WithError(err).WithField(logging.FieldKeyEventCode, logging.EventCodeErrorNetworkWrite).
